@@ -245,6 +245,19 @@ def fprime(h, kind="quadratic", method="3-point"):
             h.eq("3-point difference is exact on quadratics", g, exact)
         else:
             h.eq("2-point difference error is eps * A_ii (first order)", g - exact, eps * np.array([A[0, 0], A[1, 1]], dtype=object if h.sym else float))
+    elif kind == "matrix_argument":
+        # argument = matrix handed over as a TRANSPOSED VIEW (not C-contiguous): f(X) = sum_ij W_ij X_ij + (sum_ij V_ij X_ij)^2 (3-point exact)
+        W, V = h.mat("W", 2, 3), h.mat("V", 2, 3)
+        Xs = h.mat("X", 3, 2)
+        X = Xs.T                                # shape (2, 3), Fortran-ordered view
+        f = lambda Y: np.sum(W * Y) + np.sum(V * Y) * np.sum(V * Y)
+        with h.capture():
+            g = approx_fprime(X, f, method=method, eps=eps)
+        exact = W + 2 * np.sum(V * X) * V
+        if method == "3-point":
+            h.eq("matrix argument (transposed view): 3-point difference exact, shape of the argument", g, exact)
+        else:
+            h.eq("matrix argument (transposed view): 2-point difference error is eps * V_ij^2", g - exact, eps * V * V)
     else:
         T = np.array([[[h.real(f"T{i}{j}{k}") for k in range(2)] for j in range(2)] for i in range(2)], dtype=object if h.sym else float)
         C = h.mat("C", 2, 2)
@@ -277,4 +290,6 @@ def cases(tier, seed):
     for kind in ("quadratic", "matrix"):
         for method in ("2-point", "3-point"):
             cs.append(Case(f"approx_fprime/{kind}/{method}", fprime, dict(kind=kind, method=method), timeout=T))
+    for method in ("2-point", "3-point"):
+        cs.append(Case(f"approx_fprime/matrix_argument/{method}", fprime, dict(kind="matrix_argument", method=method), timeout=T))
     return cs
